@@ -265,6 +265,11 @@ class ConvexPolyhedron(GeoBody):
 
         self.center_point = self._get_center_point()
 
+        if not self._edge_check():
+            raise ValueError(
+                "Every edge must belong to exactly two faces, the polyhedron is not closed"
+            )
+
         for i in range(len(self.convex_polygons)):
             convex_polygon = self.convex_polygons[i]
             if (
@@ -289,6 +294,14 @@ class ConvexPolyhedron(GeoBody):
             raise ValueError(
                 "Check for the number of vertices, faces and edges fails, the polyhedron may not be closed"
             )
+
+    def _edge_check(self):
+        """return True if every edge is shared by exactly two faces"""
+        edge_count = dict()
+        for convex_polygon in self.convex_polygons:
+            for segment in convex_polygon.segments():
+                edge_count[segment] = edge_count.get(segment, 0) + 1
+        return all(count == 2 for count in edge_count.values())
 
     def _euler_check(self):
         number_points = len(self.point_set)
